@@ -4,7 +4,7 @@ from pyvc.state import declare_class
 
 NID = "Inst('saml2_tophat.saml:NameID')"
 IDB = 'saml2_tophat.ident:IdentDB'
-declare_class(IDB, fields={'db': 'Dict(Str, Str)', 'domain': 'Any', 'name_qualifier': 'Any'})
+declare_class(IDB, fields={'db': 'Dict(Str, Str)', 'domain': 'Str', 'name_qualifier': 'Any'})
 
 # the documented encoding: for each field (in ATTR order) that has a value, "<index>=<quote(value)>", joined by ","
 _F = ['name_qualifier', 'sp_name_qualifier', 'format', 'sp_provided_id', 'text']
@@ -86,3 +86,33 @@ contract(IDB + '.handle_manage_name_id_request',
          raises={'ValueError': 'True'},
          modifies=['dict(self.db)', 'name_id.sp_provided_id'],
          clauses_from={'C18': ['C18-still-resolves-to-same-user', 'C18-no-one-else-affected']})
+
+# ---- issuing (C18: "each newly issued identifier is fresh", "resolves to exactly the user it was issued for")
+from pyvc.state import ghost
+ghost('random_id', ['Val'], 'Bool')     # E-RAND: the text is an output of the random identifier generator (64 hex digits of a SHA-256)
+contract(IDB + '._create_id', trusted=True, pure=True, params=['self', 'nformat', 'name_qualifier', 'sp_name_qualifier'],
+         defaults={'name_qualifier': '', 'sp_name_qualifier': ''}, returns='Str',
+         ensures=['random_id(result)', 'len(str_of(result)) == 64'], raises={'AttributeError': 'True', 'TypeError': 'True'},
+         assumptions=['E-RAND'], note='sha256 over 32 random bytes and the qualifiers')
+contract(IDB + '.create_id', types={'nformat': 'Any', 'name_qualifier': 'Any', 'sp_name_qualifier': 'Any'}, returns='Str',
+         ensures=[('C18-fresh', 'not has_key(self.db, result)'), ('random', 'random_id(result)')],
+         raises={'AttributeError': 'True', 'TypeError': 'True'}, modifies=[],
+         loops={0: {'inv': ['is_str(_id) and random_id(_id)'], 'modifies': []}},
+         local_types={'_id': 'Str'}, clauses_from={'C18': ['C18-fresh']},
+         note='termination of the retry loop is not verified')
+_EMAIL = 'urn:oasis:names:tc:SAML:1.1:nameid-format:emailAddress'
+contract(IDB + '.get_nameid', types={'userid': 'Str', 'nformat': 'Str', 'sp_name_qualifier': 'Opt(Str)', 'name_qualifier': 'Opt(Str)'},
+         returns=NID,
+         requires=['not random_id(userid)',       # E-RAND: a local user name is not an output of the identifier generator
+                   # ... nor such an output followed by "@<domain>" (the e-mail form)
+                   'forall(lambda t: implies(random_id(t) and is_str(t), str_of(userid) != concat(str_of(t), "@", str_of(self.domain))), "Val")',
+                   'is_str(self.domain)'],
+         ensures=[('C18-issued-identifier-is-fresh', 'implies(nformat != %r, forall(lambda k: implies(k == result.text, not old(has_key(self.db, k))), "Val"))' % _EMAIL),
+                  ('C18-resolves-to-its-user', 'has_key(self.db, result.text) and self.db[result.text] == userid'),
+                  ('C18-qualifiers-as-asked', 'result.format == nformat and result.sp_name_qualifier == sp_name_qualifier and '
+                                              'result.name_qualifier == name_qualifier and fresh(result)'),
+                  ('C18-others-untouched', 'forall(lambda k: implies(k != userid and k != result.text, '
+                                           'has_key(self.db, k) == old(has_key(self.db, k)) and valmap(self.db)[k] == old(valmap(self.db))[k]), "Val")')],
+         raises={'SAMLError': 'nformat == %r and not truthy(self.domain)' % _EMAIL, 'AttributeError': 'True', 'TypeError': 'True'},
+         modifies=['dict(self.db)'],
+         clauses_from={'C18': ['C18-issued-identifier-is-fresh', 'C18-resolves-to-its-user', 'C18-qualifiers-as-asked', 'C18-others-untouched']})
